@@ -915,7 +915,16 @@ impl<'a> Ctx<'a> {
                     continue;
                 }
                 let sibling = 1 - proto;
-                let matched = evs.iter().any(|q| q.t + w >= r.t && q.t <= r.t + w && match &q.k {
+                // a process stall may fall between the two deliveries
+                let (mut lo, mut hi) = (r.t.saturating_sub(w), r.t + w);
+                for f in self.freezes.iter().filter(|f| f.0 == i && f.1 <= r.t + w && f.2 + w >= r.t) {
+                    lo = lo.min(f.1.saturating_sub(w));
+                    hi = hi.max(f.2 + w);
+                }
+                if hi > limit {
+                    continue;
+                }
+                let matched = evs.iter().any(|q| q.t >= lo && q.t <= hi && match &q.k {
                     K::PEstablished { proto: p2, peer: x } => est && *p2 == sibling && *x == peer,
                     K::PClosed { proto: p2, peer: x } => !est && *p2 == sibling && *x == peer,
                     _ => false,
